@@ -74,6 +74,13 @@ def generate(check, tier, seed, families=("exh", "sweep", "sim"), sim_num=None, 
             beh = beh[seed % 5::5]
         for b in beh:
             progs.append({"fam": "units", "out": b["out"], "needs08": b["needs08"]})
+    if "units" in families or "exh" in families:
+        # every nest of up to four labelled DO loops (own and shared labels, every kind of terminating statement, bodies)
+        beh = sorted(_run(check, "Grammar_do.cfg"), key=lambda b: json.dumps(b["out"], sort_keys=True))
+        if tier == "quick":
+            beh = beh[seed % 4::4]
+        for b in beh:
+            progs.append({"fam": "do-nests", "out": b["out"], "needs08": b["needs08"]})
     if "sim" in families:
         n = sim_num or (40 if tier == "quick" else 1500)     # per simulation worker
         w = 8
